@@ -217,7 +217,9 @@ def flush (s : St) : St :=
     | none => { s with db := some (match s.cur with | .val c => c | .absent => none) }
   | _ =>
     { s with db := some (match s.cur with | .val c => c | .absent => none), cs := .noHistory,
-             expired := false,
+             -- `_commit_all_states`: `state.expired_attributes.difference_update(dict_)` — only
+             -- keys present in `dict` stop being expired
+             expired := (match s.cur with | .val _ => false | .absent => s.expired),
              -- the dependency sync writes the foreign-key attribute when the history has an added
              -- or a deleted reference: a present current value, or a recorded original
              fk := s.fk || (match s.cur with | .val _ => true | .absent => false) ||
